@@ -142,18 +142,27 @@ func (x *Exec) execInstr(fr *Frame, st *State, in ssa.Instruction) {
 		}
 		if name := debugName(i); name != "" {
 			if v, ok := st.regs[i.X]; ok {
+				if os.Getenv("GOVC_DEBUG") != "" {
+					fmt.Fprintf(os.Stderr, "debugref %s = %v (%s)\n", name, v, i.X.Name())
+				}
 				st.names[name] = v
 				x.nameTypes[name] = i.X.Type()
 			} else if c, ok := i.X.(*ssa.Const); ok {
-				st.names[name] = x.constVal(c)
-				x.nameTypes[name] = i.X.Type()
+				// go/ssa may emit a zero-valued debug reference at the defining identifier of `x := <composite literal>`
+				// before the value exists; such a reference must not bind the name (the value is found through later references).
+				if x.hasNonConstDebugRef(fr.fn, name) {
+					delete(st.names, name)
+				} else {
+					st.names[name] = x.constVal(c)
+					x.nameTypes[name] = i.X.Type()
+				}
 			}
 		}
 	case *ssa.Alloc:
 		T := i.Type().(*types.Pointer).Elem()
 		r := x.alloc(st, i.Name())
 		if !x.isAggType(T) && x.nonEscapingAlloc(i) {
-			x.localCells[r.id] = "L$" + i.Name()
+			x.localCells[r.id] = "L$" + shortKey(funcKey(fr.fn)) + "$" + i.Name()
 		}
 		x.initObject(st, r, T)
 		x.setReg(st, i, r)
@@ -212,6 +221,10 @@ func (x *Exec) execInstr(fr *Frame, st *State, in ssa.Instruction) {
 	case *ssa.MapUpdate:
 		m := asTerm(x.val(fr, st, i.Map))
 		x.safety(fr, st, "nil-map-write", tt.Not(tt.Eq(m, tt.IntLit(0))), "assignment to entry in nil map")
+		if _, used := x.heapSorts["G$published"]; used || x.prog.Cons.UsesPublished {
+			pub := tt.Select(x.heap(st, "G$published", arraySort("Int", "Bool")), m)
+			x.oblige(fr, st, "published-immutable", x.lineAnchor(x.curPos), []string{"C05", "C15"}, tt.Not(pub), "a map that has been published through atomic.Value is never updated in place")
+		}
 		x.mapUpdate(st, m, i.Map.Type(), x.val(fr, st, i.Key), x.val(fr, st, i.Value))
 	case *ssa.MakeMap:
 		r := x.alloc(st, "map")
@@ -1115,4 +1128,31 @@ func (x *Exec) implements(v *Term, I types.Type) *Term {
 	name := "impl$" + typeName(I)
 	x.ifaceUsed[name] = it
 	return tt.And(tt.Not(tt.Is("vnil", v)), tt.UF(name, "Bool", tag))
+}
+
+func (x *Exec) hasNonConstDebugRef(fn *ssa.Function, name string) bool {
+	for _, b := range fn.Blocks {
+		for _, in := range b.Instrs {
+			if d, ok := in.(*ssa.DebugRef); ok && !d.IsAddr && debugName(d) == name {
+				if _, isC := d.X.(*ssa.Const); !isC {
+					return true
+				}
+			}
+		}
+	}
+	return false
+}
+
+// lookupNameByDebugRefs: value of a named local through any debug reference whose SSA value is available in st.
+func (x *Exec) lookupNameByDebugRefs(fn *ssa.Function, st *State, name string) (Value, types.Type, bool) {
+	for _, b := range fn.Blocks {
+		for _, in := range b.Instrs {
+			if d, ok := in.(*ssa.DebugRef); ok && !d.IsAddr && debugName(d) == name {
+				if v, ok := st.regs[d.X]; ok {
+					return v, d.X.Type(), true
+				}
+			}
+		}
+	}
+	return nil, nil, false
 }
